@@ -1,0 +1,19 @@
+//go:build verif
+
+package exit
+
+import "github.com/postalsys/muti-metroo/internal/crypto"
+
+// VerifSessionKey returns the connection's end-to-end session key (verification harness only).
+func (ac *ActiveConnection) VerifSessionKey() *crypto.SessionKey { return ac.sessionKey }
+
+// VerifConnections returns a snapshot of the active connection records.
+func (h *Handler) VerifConnections() []*ActiveConnection {
+	h.mu.RLock()
+	defer h.mu.RUnlock()
+	out := make([]*ActiveConnection, 0, len(h.connections))
+	for _, ac := range h.connections {
+		out = append(out, ac)
+	}
+	return out
+}
